@@ -1,6 +1,7 @@
 #!/usr/bin/env python3
 """Run quick checks against every behaviour-preserving patch in /verif/neutral/<name>/patch.diff.
-   tools/neutral.py [P ...]   (default: all twelve claimed properties). /repo is always restored."""
+   tools/neutral.py [P ...]   (default: all twelve claimed properties). /repo is always restored.
+   NEUTRAL_ONLY=N1-2,N9-3 restricts the run to those patches."""
 import os, subprocess, sys, json
 ROOT = os.path.dirname(os.path.dirname(os.path.abspath(__file__)))
 ND = os.path.join(ROOT, "neutral")
@@ -8,7 +9,8 @@ props = sys.argv[1:] or ["C02", "C04", "C05", "C06", "C09", "C11", "C12", "C13",
 if subprocess.run(["git", "status", "--porcelain", "--untracked-files=no"], cwd="/repo", capture_output=True, text=True).stdout.strip():
     print("/repo has uncommitted changes; refusing"); sys.exit(2)
 alarms = 0; runs = 0
-for d in sorted(x for x in os.listdir(ND) if os.path.isdir(os.path.join(ND, x))):
+ONLY = [x for x in os.environ.get("NEUTRAL_ONLY", "").split(",") if x]  # optional subset of patch names
+for d in sorted(x for x in os.listdir(ND) if os.path.isdir(os.path.join(ND, x)) and (not ONLY or x in ONLY)):
     patch = os.path.join(ND, d, "patch.diff")
     try:
         if subprocess.run(["git", "apply", patch], cwd="/repo").returncode != 0:
